@@ -413,22 +413,21 @@ namespace Fit
 
 /-- the file_id block of an encoded File, read back: the File's file_id message is restored -/
 theorem fileid_block_ok (P : Profile) (hwf : ProfileWF P = true) (arch : Endian) (m : Msg) (bs : Bytes)
-    (pm : PMsg) (hpm : P.msg? m.num = some pm) (hkn : P.known m.num = true) (hfid : m.num = mnFileId)
-    (h : encodeOne P arch m = .ok bs)
-    (hrt : ∀ pf ∈ pm.fields, ∀ k v, pm.layout[pf.sindex]? = some k → m.vals[pf.sindex]? = some v →
-      isInvalidVal pm pf.sindex v = false → ∀ fs, FieldRT P (defOf arch m.num fs) pf k v)
-    (hinv : ∀ i v, m.vals[i]? = some v → isInvalidVal pm i v = true → pm.invalid[i]? = some v)
+    (pm : PMsg) (hpm : P.msg? m.num = some pm) (hkn : P.known m.num = true) (m' : Msg) (hfid : m'.num = mnFileId)
+    (hround : ∃ (fs : List PField) (parts : List Bytes),
+      bs = serialize [.defn (defOf arch m.num fs) false, .data 0 parts []] ∧
+      (∀ pf ∈ fs, pf ∈ pm.fields) ∧ FieldsFit (fs.map fdOf) parts ∧ fs.length < 256 ∧
+      ∀ st : DecSt, ∃ st', stepFields P (defOf arch m.num fs) true (defOf arch m.num fs).fields parts
+        (some ⟨m.num, pm.invalid⟩) st = .ok (some m') st')
     (st0 : DecSt) (f0 : FileSt) (hf0 : st0.file = some f0) (hc0 : f0.cidx = none) (hd0 : 0 < st0.defs.length) :
     ∃ (fs : List PField) (parts : List Bytes) (st1 st2 : DecSt),
       bs = serialize [.defn (defOf arch m.num fs) false, .data 0 parts []] ∧
       GoodBlock P (defOf arch m.num fs) [parts] ∧
       stepItem P st0 (.defn (defOf arch m.num fs) false) = .ok st1 ∧
       stepItem P st1 (.data 0 parts []) = .ok st2 ∧
-      st2.file = some { f0 with fileId := m } ∧ 0 < st2.defs.length ∧ st2.glob = st0.glob ∧
+      st2.file = some { f0 with fileId := m' } ∧ 0 < st2.defs.length ∧ st2.glob = st0.glob ∧
       st1.defs.getD 0 none = some (defOf arch m.num fs) := by
-  have hknpm : pm.known = true := by
-    unfold Profile.known at hkn; rw [hpm] at hkn; exact hkn
-  obtain ⟨fs, parts, hbs, hmem, hfit, hsmall, hstep⟩ := message_roundtrip P hwf arch m bs pm hpm hknpm h hrt hinv
+  obtain ⟨fs, parts, hbs, hmem, hfit, hsmall, hstep⟩ := hround
   have hgood : GoodBlock P (defOf arch m.num fs) [parts] :=
     defOf_good P hwf arch m.num pm hpm hkn fs hmem hsmall [parts]
       (fun p hp => by simp only [List.mem_singleton] at hp; subst hp; exact hfit)
@@ -451,7 +450,7 @@ theorem fileid_block_ok (P : Profile) (hwf : ProfileWF P = true) (arch : Endian)
     exact getD_setAt_same _ _ _ _ hd0
   refine ⟨fs, parts, st1, ?_⟩
   -- the data record
-  have hdata : ∃ st2, stepItem P st1 (.data 0 parts []) = .ok st2 ∧ st2.file = some { f0 with fileId := m } ∧
+  have hdata : ∃ st2, stepItem P st1 (.data 0 parts []) = .ok st2 ∧ st2.file = some { f0 with fileId := m' } ∧
       0 < st2.defs.length ∧ st2.glob = st0.glob := by
     simp only [stepItem]
     rw [stepData_pre]
@@ -465,7 +464,7 @@ theorem fileid_block_ok (P : Profile) (hwf : ProfileWF P = true) (arch : Endian)
     simp only [hkn']
     obtain ⟨stx, hsx⟩ := hstep (st1.eat [u8 0])
     have hsx' : stepFields P (defOf arch m.num fs) true (defOf arch m.num fs).fields parts
-        (some ⟨(defOf arch m.num fs).global, pm2.invalid⟩) (st1.eat [u8 0]) = .ok (some m) stx := hsx
+        (some ⟨(defOf arch m.num fs).global, pm2.invalid⟩) (st1.eat [u8 0]) = .ok (some m') stx := hsx
     rw [hsx']
     obtain ⟨hfx, hdx⟩ := stepFields_file P _ true _ parts _ (st1.eat [u8 0]) _ _ hsx
     have hfx' : stx.file = some f0 := by rw [hfx]; exact hf1
@@ -605,7 +604,9 @@ theorem decode_accepts_encode (P : Profile) (hwf : ProfileWF P = true) (arch : E
               obtain ⟨hrt, hinv⟩ := hdom.fidRT pm0 hpm0'
               have hknf : P.known f.fileId.num = true := by rw [hdom.fidNum]; exact hdom.fidKnown
               obtain ⟨fs, parts0, st1, st2, hb0, hgood0, hs1, hs2, hf2, hd2, _, _⟩ :=
-                fileid_block_ok P hwf arch f.fileId b0 pm0 hpm0' hknf hdom.fidNum hfid hrt hinv
+                fileid_block_ok P hwf arch f.fileId b0 pm0 hpm0' hknf f.fileId hdom.fidNum
+                  (message_roundtrip P hwf arch f.fileId b0 pm0 hpm0'
+                    (by unfold Profile.known at hknf; rw [hpm0'] at hknf; exact hknf) hfid hrt hinv)
                   (recState0 P k g f.hdr.proto f.hdr.profile (b0 ++ br).length)
                   { hdr := (afterHeader k g f.hdr.proto f.hdr.profile (b0 ++ br).length).hdr, fileId := zeroFileId P }
                   rfl rfl (by simp [recState0, afterHeader, DecSt.init])
